@@ -17,6 +17,7 @@ after-hook Info) unmodified, never replaced by a constant; (R3) panic-hook pairi
 entry is the argument of a set_hook that lies on every normal path to return, and the silencing set_hook precedes
 the first suspension and the first emission; (R4) "others unaffected / run ends" follows from C02/C03 ordering
 rules given R1 (no unwinding path out of user code).
+Added after the second seeded round: (R4) the deferred failure event is the Failed event of the kind of step / hook that failed (= C02.R3).
 """
 DECLINED = ["panics inside user-supplied which_scenario / retry_options / filter closures (not step, hook or World code)",
             "what the writers print for a payload"]
